@@ -66,6 +66,19 @@ def facts(core, client, serializers, nameserver, s):
             out["routes"].append({"name": name, "eq": bool(v == u) and str(v) == txt})
         except Exception as x:
             out["routes"].append({"name": name, "eq": False, "error": type(x).__name__})
+        try:
+            # received twice; the first receiver edits what it got (it is its own object) before the second one arrives
+            blob = ser.dumps(u)
+            first = ser.loads(blob)
+            if isinstance(first.object, set):
+                first.object.add("edited-by-the-first-receiver")
+            else:
+                first.object = "Pyro.Daemon"
+            first.protocol = "PYRO"
+            second = ser.loads(blob)
+            out["routes"].append({"name": name + "+again", "eq": bool(second == u) and str(second) == txt})
+        except Exception as x:
+            out["routes"].append({"name": name + "+again", "eq": False, "error": type(x).__name__})
         if CATCHALL[0]:
             # the application has registered a converter for "every other object" (for the base class of all classes) later on:
             # uris and proxies still travel as what they are
@@ -81,6 +94,16 @@ def facts(core, client, serializers, nameserver, s):
             p._pyroRelease()
         except Exception as x:
             out["routes"].append({"name": "proxy/" + name, "eq": False, "error": type(x).__name__})
+    if isinstance(u.object, set):
+        # a tag set changed in place after the uri has been printed once: the text form follows, and still parses to an equal uri
+        try:
+            w = core.URI(s)
+            before = str(w)
+            w.object.add("added-later")
+            after = str(w)
+            out["routes"].append({"name": "tags_edited", "eq": after != before and bool(core.URI(after) == w) and hash(core.URI(after)) == hash(w)})
+        except Exception as x:
+            out["routes"].append({"name": "tags_edited", "eq": False, "error": type(x).__name__})
     try:
         ns = nameserver.NameServer()
         ns.register("n", u)
